@@ -10,6 +10,7 @@ import GlareModel.Core.Rle
 import GlareModel.Core.CatalogRun
 import GlareModel.Core.Collection
 import GlareModel.Core.Tokens
+import GlareModel.Core.Unify
 
 /-! `gmodel`: line-protocol driver. Reads `case <n> <component> ...` lines on stdin and
 prints `out <n> ...` lines computed by the code-shaped model. -/
@@ -330,6 +331,22 @@ def runTok (args : List String) : String :=
           | .sym n => "Y:" ++ n)
   | _ => "bad-case"
 
+def tyIdOfName (n : String) : Option Generated.TyId :=
+  Generated.TyId.all.find? fun t => (reprStr t).endsWith ("." ++ n) || reprStr t == n
+
+/-- `case N unify <TyId> <TyId>` (constructor names as in Generated/CastTable.lean). -/
+def runUnify (args : List String) : String :=
+  match args with
+  | [a, b] =>
+    match tyIdOfName a, tyIdOfName b with
+    | some x, some y =>
+      if x == y then "same" else
+      match Unify.unifyId x y with
+      | some t => "some " ++ (((reprStr t).splitOn ".").getLast?.getD "")
+      | none => "none"
+    | _, _ => "bad-case"
+  | _ => "bad-case"
+
 def step (line : String) : Option String :=
   -- `case N sem <payload>`: the payload keeps its spaces
   match (line.trimAscii.toString.splitOn " ") with
@@ -345,6 +362,7 @@ def step (line : String) : Option String :=
   | "case" :: n :: "cast" :: args => some s!"out {n} {runCast args}"
   | "case" :: n :: "like" :: args => some s!"out {n} {runLike args}"
   | "case" :: n :: "rle" :: args => some s!"out {n} {runRle args}"
+  | "case" :: n :: "unify" :: args => some s!"out {n} {runUnify args}"
   | "case" :: n :: "tok" :: args => some s!"out {n} {runTok args}"
   | "case" :: n :: "collection" :: args => some s!"out {n} {runCollection args}"
   | "case" :: n :: "csv" :: args => some s!"out {n} {runCsv args}"
